@@ -42,7 +42,8 @@ MODELLED = ('all from_dataset/from_sequence/extract_from_dataset/_from_dataset_*
             '(effect terms, regenerated each run); valuerep._check_code_string/_check_short_string/_check_long_string/'
             '_check_short_text/_check_long_text; uid.UID() and UID.from_uuid; pydicom VALIDATORS[CS,SH,LO,ST,LT], '
             'VALIDATORS[UI]')
-STRATA = ['guard', 'valid', 'uid_uuid', 'uid_hd', 'uid_valid', 'uid_unique', 'conv', 'ctor']
+STRATA = ['guard', 'valid', 'uid_uuid', 'uid_hd', 'uid_valid', 'uid_unique', 'conv', 'ctor',
+          'ctor_layout', 'ctor_multi', 'ctor_opt', 'lut', 'pyr_ids', 'pm_native']
 NOT_EXECUTED = ['SpecimenDescription.from_dataset at run time (substitute attribute table has no specimen module tree)',
                 'JPEG 2000 / JPEG-LS transfer syntaxes in the ctor kind']
 RULE = ('guard/valid: strings over a boundary alphabet (upper, lower, digit, space, underscore, backslash, newline, '
@@ -111,8 +112,12 @@ def _snap(x, ids=None):
     if isinstance(x, (list, tuple, MultiValue)):
         return ('L', tuple(_snap(i, ids) for i in x))
     if isinstance(x, np.ndarray):
+        own = x
+        while isinstance(own.base, np.ndarray):
+            own = own.base          # the buffer the caller owns: bytes outside the view count too
         return ('A', x.dtype.str, x.shape, x.strides, bool(x.flags.writeable),
-                hashlib.sha1(np.ascontiguousarray(x).tobytes()).hexdigest())
+                hashlib.sha1(np.ascontiguousarray(x).tobytes()).hexdigest(),
+                None if own is x else (own.dtype.str, own.shape, hashlib.sha1(own.tobytes()).hexdigest()))
     if isinstance(x, (bytes, bytearray)):
         return ('B', len(x), hashlib.sha1(bytes(x)).hexdigest())
     return ('V', type(x).__name__, repr(x))
@@ -151,6 +156,10 @@ def _first_diff(a, b, path='arg'):
                 d = _first_diff(x, y, f'{path}[{i}]')
                 if d:
                     return d
+    if isinstance(a, tuple) and isinstance(b, tuple) and a[:1] == ('A',) and b[:1] == ('A',):
+        what = [n for n, x, y in zip(('dtype', 'shape', 'strides', 'writeable', 'bytes', 'owner buffer'), a[1:], b[1:])
+                if x != y]
+        return f'{path}: array {a[1]}{list(a[2])} strides {list(a[3])} changed in {", ".join(what)}'
     return f'{path}: {str(a)[:80]} -> {str(b)[:80]}'
 
 
@@ -306,7 +315,67 @@ def _sr_doc(rng, cls_name='Comprehensive3DSR', with_report=True):
     return doc, ct, report
 
 
-def _seg(rng, seg_type=None, dtype=None):
+# memory layouts of one and the same array value (what differs is where a
+# library may skip a defensive copy): byte order, contiguity, views into a larger
+# buffer owned by the caller, write protection
+LAYOUTS = ['C', 'F', 'swapped', 'strided', 'reversed', 'offset', 'readonly', 'swapped_offset', 'swapped_readonly']
+
+
+def _relayout(arr, layout):
+    import numpy as np
+    a = np.ascontiguousarray(arr)
+    if layout in (None, 'C'):
+        return a
+    if layout == 'F':
+        return np.asfortranarray(a)
+    if layout.startswith('swapped'):
+        if a.dtype.itemsize > 1:
+            a = a.astype(a.dtype.newbyteorder('S'))      # non-native byte order, same values
+        layout = layout[len('swapped'):].lstrip('_') or 'C'
+    if layout == 'C':
+        return a
+    if layout == 'strided':
+        big = np.zeros(a.shape[:-1] + (2 * a.shape[-1],), a.dtype)
+        big[..., 1::2] = 1
+        big[..., ::2] = a
+        return big[..., ::2]
+    if layout == 'reversed':
+        return np.ascontiguousarray(a[::-1])[::-1]
+    if layout == 'offset':
+        buf = np.ones(a.size + 5, a.dtype)
+        v = buf[3:3 + a.size].reshape(a.shape)
+        v[...] = a
+        return v
+    if layout == 'readonly':
+        a = a.copy()
+        a.flags.writeable = False
+        return a
+    raise ValueError(layout)
+
+
+def _palette_from(bits, first, r, g, b, via='luts', layout='C', uid=True):
+    """PaletteColorLUTTransformation over the given tables through one of the public
+    entry points; returns (transformation, [caller-owned inputs])."""
+    import numpy as np
+    import highdicom as hd
+    dt = np.uint8 if bits == 8 else np.uint16
+    puid = hd.UID() if uid else None
+    if via == 'combined':
+        arr = _relayout(np.stack([np.array(x, dt) for x in (r, g, b)], axis=1), layout)
+        return hd.PaletteColorLUTTransformation.from_combined_lut(arr, first, puid), [arr]
+    if via == 'colors':
+        colors = ['#%02x%02x%02x' % t for t in zip(r, g, b)]
+        return hd.PaletteColorLUTTransformation.from_colors(colors, first, puid), [colors]
+    if via == 'segmented':      # every entry its own discrete segment of length 1
+        arrs = [_relayout(np.array([v for x in col for v in (0, 1, x)], dt), layout) for col in (r, g, b)]
+        luts = [hd.SegmentedPaletteColorLUT(first, a, c) for a, c in zip(arrs, ('red', 'green', 'blue'))]
+    else:
+        arrs = [_relayout(np.array(col, dt), layout) for col in (r, g, b)]
+        luts = [hd.PaletteColorLUT(first, a, c) for a, c in zip(arrs, ('red', 'green', 'blue'))]
+    return hd.PaletteColorLUTTransformation(luts[0], luts[1], luts[2], puid), arrs + luts
+
+
+def _seg(rng, seg_type=None, dtype=None, layout=None, palette=None):
     import numpy as np
     import highdicom as hd
     import synth
@@ -329,7 +398,9 @@ def _seg(rng, seg_type=None, dtype=None):
             arr = np.array([rng.random() < 0.5 for _ in range(n * rows * cols * nseg)]).reshape(n, rows, cols, nseg)
         else:
             arr = np.array([rng.randint(0, nseg) for _ in range(n * rows * cols)], dtype=dt).reshape(n, rows, cols)
-    if rng.random() < 0.3:
+    if layout is not None:
+        arr = _relayout(arr, layout)
+    elif rng.random() < 0.3:
         arr = np.asfortranarray(arr)
     descs = [synth.seg_description(k + 1, label=_bstr(rng, 64), category=_coded(rng), ptype=_coded(rng),
                                    algorithm_type=rng.choice(['MANUAL', 'AUTOMATIC']),
@@ -338,18 +409,28 @@ def _seg(rng, seg_type=None, dtype=None):
     kw = {}
     if rng.random() < 0.4:
         kw['pixel_measures'] = hd.PixelMeasuresSequence(pixel_spacing=(1.0, 1.0), slice_thickness=1.0)
+    if palette is not None and seg_type == 'LABELMAP':
+        # a palette colour table with more entries than segments: 8/16 bit, odd/even sizes,
+        # through every public way of building the transformation
+        bits, n, via = palette
+        n = max(n, nseg + 1)
+        cols = [[rng.randrange(2 ** bits) for _ in range(n)] for _ in range(3)]
+        tf, owned = _palette_from(bits, 0, cols[0], cols[1], cols[2], via, rng.choice(['C', 'strided', 'readonly']))
+        kw['palette_color_lut_transformation'] = tf
+        kw['_owned'] = [tf] + owned
     return src, arr, seg_type, descs, kw
 
 
 def _make_seg(rng, **k):
     import highdicom as hd
     src, arr, seg_type, descs, kw = _seg(rng, **k)
+    kw.pop('_owned', None)
     return hd.seg.Segmentation(src, arr, seg_type, descs, series_instance_uid=hd.UID(), series_number=1,
                                sop_instance_uid=hd.UID(), instance_number=1, manufacturer='m',
                                manufacturer_model_name='mm', software_versions='1', device_serial_number='sn', **kw)
 
 
-def _ann(rng):
+def _ann(rng, layout=None):
     import numpy as np
     import highdicom as hd
     import synth
@@ -363,6 +444,9 @@ def _ann(rng):
         gd = [np.array([[rng.randint(0, 400) / 8, rng.randint(0, 400) / 8] for _ in range(3)], dtype=dt)
               for _ in range(na)]
         vals = np.array([rng.randint(0, 100) / 4 for _ in range(na)], dtype=np.float32)
+        if layout is not None:
+            gd = [_relayout(x, layout) for x in gd]
+            vals = _relayout(vals, layout)
         meas = [Measurements(_coded(rng), vals, rng.choice([codes.UCUM.SquareMicrometer, _coded(rng)]))] \
             if rng.random() < 0.6 else None
         arrays += gd + [vals]
@@ -608,11 +692,19 @@ def run_converter(c):
 
 
 # ---- constructors ------------------------------------------------------------
+# A builder takes (rng, opt) and returns (caller-owned arguments, make[, post]):
+# make() calls the public constructor (an object or, for entry points that build
+# several objects in one call, a list of objects); post(obj, read_back) is an extra
+# independent check of what was stored.  opt carries the explicit dimensions of the
+# case (memory layout, dtype, rank, palette ...), absent keys are drawn from rng.
 def _b_seg(seg_type):
-    def build(rng):
+    def build(rng, opt=None):
         import highdicom as hd
-        src, arr, st, descs, kw = _seg(rng, seg_type=seg_type)
-        args = [src, arr, descs] + ([kw['pixel_measures']] if 'pixel_measures' in kw else [])
+        opt = opt or {}
+        src, arr, st, descs, kw = _seg(rng, seg_type=seg_type, dtype=opt.get('dtype'), layout=opt.get('layout'),
+                                       palette=opt.get('palette'))
+        owned = kw.pop('_owned', [])
+        args = [src, arr, descs] + ([kw['pixel_measures']] if 'pixel_measures' in kw else []) + owned
         strs = dict(manufacturer=_bstr(rng, 64), manufacturer_model_name=_bstr(rng, 64),
                     software_versions=_bstr(rng, 64), device_serial_number=_bstr(rng, 64),
                     content_label=_bstr(rng, 16, cs=True), content_description=_bstr(rng, 64),
@@ -621,45 +713,91 @@ def _b_seg(seg_type):
         def make():
             return hd.seg.Segmentation(src, arr, st, descs, series_instance_uid=hd.UID(), series_number=1,
                                        sop_instance_uid=hd.UID(), instance_number=1, **strs, **kw)
-        return args, make
+
+        def post(obj, back):
+            tf = kw.get('palette_color_lut_transformation')
+            if tf is None:
+                return None
+            for col in ('Red', 'Green', 'Blue'):
+                for suffix in ('Descriptor', 'Data'):
+                    k = f'{col}PaletteColorLookupTable{suffix}'
+                    if k not in obj or obj[k].value != tf[k].value:
+                        return f'{k} of the object is not the table of the transformation passed in'
+            return None
+        return args, make, post
     return build
 
 
-def _b_pm(rng):
+def _b_pm(rng, opt=None):
     import numpy as np
     import highdicom as hd
     import synth
     from pydicom.sr.codedict import codes
+    opt = opt or {}
     rows, cols = rng.choice([(2, 3), (4, 4)])
-    P = rng.randint(1, 3)
-    dt = rng.choice([np.uint8, np.uint16, np.float32, np.float64])
-    if np.dtype(dt).kind == 'f':
-        arr = np.array([rng.choice([1.5, -2.25, 0.0, rng.random() * 100]) for _ in range(P * rows * cols)],
-                       dtype=dt).reshape(P, rows, cols, 1)
+    ndim = opt.get('ndim', 4)
+    P = 1 if ndim == 2 else rng.randint(1, 3)
+    M = opt.get('maps', 1) if ndim == 4 else 1
+    dt = np.dtype(opt.get('dtype') or rng.choice(['u1', 'u2', 'f4', 'f8']))
+    shape = {2: (rows, cols), 3: (P, rows, cols), 4: (P, rows, cols, M)}[ndim]
+    count = P * rows * cols * M
+    if dt.kind == 'f':
+        arr = np.array([rng.choice([1.5, -2.25, 0.0, rng.random() * 100]) for _ in range(count)], dtype=dt)
         vr = (-1e30, 1e30)
     else:
-        arr = np.array([rng.randint(0, np.iinfo(dt).max) for _ in range(P * rows * cols)],
-                       dtype=dt).reshape(P, rows, cols, 1)
+        arr = np.array([rng.randint(0, np.iinfo(dt).max) for _ in range(count)], dtype=dt)
         vr = (0, int(np.iinfo(dt).max))
-    if rng.random() < 0.3:
+    arr = arr.reshape(shape)
+    expected = arr.astype(dt.newbyteorder('=')).reshape(P, rows, cols, M).transpose(0, 3, 1, 2).reshape(P * M, rows, cols)
+    if 'layout' in opt:
+        arr = _relayout(arr, opt['layout'])
+    elif rng.random() < 0.3:
         arr = np.asfortranarray(arr)
-    maps = [[hd.pm.RealWorldValueMapping(lut_label=_bstr(rng, 16), lut_explanation=_bstr(rng, 64),
-                                         unit=rng.choice([codes.UCUM.NoUnits, _coded(rng)]),
-                                         value_range=vr, slope=2.0, intercept=-0.5)]]
+
+    def mapping():
+        return hd.pm.RealWorldValueMapping(lut_label=_bstr(rng, 16), lut_explanation=_bstr(rng, 64),
+                                           unit=rng.choice([codes.UCUM.NoUnits, _coded(rng)]),
+                                           value_range=vr, slope=2.0, intercept=-0.5)
+    flat = [mapping() for _ in range(M)]
+    maps = [[m] for m in flat] if ndim == 4 else flat
     src = synth.ct_series(P, rows, cols)
+    kw, owned = {}, []
+    if opt.get('palette') is not None and dt.kind == 'u':
+        bits, n, via = opt['palette']
+        cols3 = [[rng.randrange(2 ** bits) for _ in range(n)] for _ in range(3)]
+        tf, owned = _palette_from(bits, 0, cols3[0], cols3[1], cols3[2], via)
+        kw['palette_color_lut_transformation'] = tf
+        owned = [tf] + owned
 
     def make():
         return hd.pm.ParametricMap(src, arr, hd.UID(), 1, hd.UID(), 1, 'm', 'mm', '1', 'sn',
                                    contains_recognizable_visual_features=False, real_world_value_mappings=maps,
-                                   window_center=1.0, window_width=2.0)
-    return [src, arr, maps[0]], make
+                                   window_center=1.0, window_width=2.0, **kw)
+
+    def post(obj, back):
+        # the stored (little-endian) pixel data decode to the VALUES that were passed in
+        for kwd, code in (('FloatPixelData', '<f4'), ('DoubleFloatPixelData', '<f8'), ('PixelData', None)):
+            if kwd in back:
+                code = code or ('<u1' if back.BitsAllocated == 8 else '<u2')
+                got = np.frombuffer(back[kwd].value, code)[:P * M * rows * cols].reshape(P * M, rows, cols)
+                if not np.array_equal(got, expected.astype(got.dtype.newbyteorder('='))):
+                    return f'{kwd} does not hold the values of the pixel array passed in'
+                return None
+        return 'no pixel data element'
+    return [src, arr] + flat + owned, make, post
 
 
-def _b_sc(rng):
+def _sc_shape(rng, opt):
+    kind = opt.get('sc_kind') or rng.choice(['u8', 'u16', 'rgb'])
+    rows, cols = rng.choice([(2, 4), (3, 5), (4, 4)])
+    return kind, rows, cols
+
+
+def _b_sc(rng, opt=None):
     import numpy as np
     import highdicom as hd
-    kind = rng.choice(['u8', 'u16', 'rgb'])
-    rows, cols = rng.choice([(2, 4), (3, 5), (4, 4)])
+    opt = opt or {}
+    kind, rows, cols = _sc_shape(rng, opt)
     if kind == 'u8':
         a = np.array([rng.randint(0, 255) for _ in range(rows * cols)], np.uint8).reshape(rows, cols)
         ba, pi = 8, rng.choice(['MONOCHROME1', 'MONOCHROME2'])
@@ -669,7 +807,10 @@ def _b_sc(rng):
     else:
         a = np.array([rng.randint(0, 255) for _ in range(rows * cols * 3)], np.uint8).reshape(rows, cols, 3)
         ba, pi = 8, 'RGB'
-    if rng.random() < 0.3:
+    expected = a.copy()
+    if 'layout' in opt:
+        a = _relayout(a, opt['layout'])
+    elif rng.random() < 0.3:
         a = np.asfortranarray(a)
 
     def make():
@@ -677,11 +818,17 @@ def _b_sc(rng):
                              patient_name='a^b', patient_birth_date='19700101', patient_sex='O',
                              accession_number='1', study_id='1', study_date='20200101', study_time='101010',
                              referring_physician_name='x^y', patient_orientation=('L', 'P'))
-    return [a], make
+
+    def post(obj, back):
+        got = np.frombuffer(back.PixelData, '<u1' if back.BitsAllocated == 8 else '<u2')[:expected.size]
+        if not np.array_equal(got.reshape(expected.shape), expected):
+            return 'PixelData does not hold the values of the pixel array passed in'
+        return None
+    return [a], make, post
 
 
 def _b_sr(cls_name):
-    def build(rng):
+    def build(rng, opt=None):
         import highdicom as hd
         from highdicom import sr
         _, ct, report = _sr_doc(rng, cls_name)
@@ -694,7 +841,7 @@ def _b_sr(cls_name):
     return build
 
 
-def _b_ko(rng):
+def _b_ko(rng, opt=None):
     import highdicom as hd
     from highdicom.ko import KeyObjectSelectionDocument
     cts, content = _kos(rng)
@@ -706,32 +853,108 @@ def _b_ko(rng):
     return [cts, content], make
 
 
-def _b_ann(rng):
+def _b_ann(rng, opt=None):
     import highdicom as hd
     from highdicom.ann import MicroscopyBulkSimpleAnnotations
-    sm, groups, arrays = _ann(rng)
+    sm, groups, arrays = _ann(rng, (opt or {}).get('layout'))
 
     def make():
         return MicroscopyBulkSimpleAnnotations([sm], '2D', groups, hd.UID(), 1, hd.UID(), 1, 'm', 'mm', '1', 'sn')
-    return [sm, groups], make
+    return [sm, groups] + arrays, make
 
 
-def _b_pr(rng):
+def _b_pr(rng, opt=None):
+    """Presentation states: grayscale with a VOI window / VOI LUT / modality LUT, pseudo-colour
+    with a 16-bit palette colour table of odd or even size."""
+    import numpy as np
     import highdicom as hd
     import synth
+    opt = opt or {}
     cts = synth.ct_series(rng.randint(1, 3), 4, 4)
-    voi = [hd.pr.SoftcopyVOILUTTransformation(window_center=float(rng.randint(1, 80)), window_width=400.0)]
+    form = opt.get('pr') or rng.choice(['window', 'voilut', 'modlut', 'pseudocolor'])
+    common_kw = dict(referenced_images=cts, series_number=1, instance_number=1,
+                     manufacturer='m', manufacturer_model_name='mm', software_versions='1',
+                     device_serial_number=_bstr(rng, 64), content_label=_bstr(rng, 16, cs=True),
+                     content_description=_bstr(rng, 64))
+    owned = []
+    n = opt.get('entries') or rng.choice([3, 4, 5, 256])
+    lay = opt.get('layout', 'C')
+    if form == 'voilut':
+        data = _relayout(np.array([rng.randrange(65536) for _ in range(n)], np.uint16), lay)
+        voi = [hd.pr.SoftcopyVOILUTTransformation(voi_luts=[hd.VOILUT(rng.randint(0, 5), data, 'x')])]
+        owned = [data]
+    else:
+        voi = [hd.pr.SoftcopyVOILUTTransformation(window_center=float(rng.randint(1, 80)), window_width=400.0)]
+    kw = dict(voi_lut_transformations=voi)
+    if form == 'modlut':
+        data = _relayout(np.array([rng.randrange(65536) for _ in range(n)], np.uint16), lay)
+        kw['modality_lut_transformation'] = hd.ModalityLUTTransformation(
+            modality_lut=hd.ModalityLUT('HU', rng.randint(0, 5), data))
+        owned = [data, kw['modality_lut_transformation']]
+    if form == 'pseudocolor':
+        cols3 = [[rng.randrange(65536) for _ in range(n)] for _ in range(3)]
+        tf, more = _palette_from(16, 0, cols3[0], cols3[1], cols3[2], rng.choice(['luts', 'combined']), lay)
+        kw['palette_color_lut_transformation'] = tf
+        owned = [tf] + more
 
     def make():
-        return hd.pr.GrayscaleSoftcopyPresentationState(
-            referenced_images=cts, series_instance_uid=hd.UID(), series_number=1, sop_instance_uid=hd.UID(),
-            instance_number=1, manufacturer='m', manufacturer_model_name='mm', software_versions='1',
-            device_serial_number=_bstr(rng, 64), content_label=_bstr(rng, 16, cs=True),
-            content_description=_bstr(rng, 64), voi_lut_transformations=voi)
-    return [cts, voi], make
+        cls = hd.pr.PseudoColorSoftcopyPresentationState if form == 'pseudocolor' else \
+            hd.pr.GrayscaleSoftcopyPresentationState
+        return cls(series_instance_uid=hd.UID(), sop_instance_uid=hd.UID(), **common_kw, **kw)
+    return [cts, voi] + owned, make
 
 
-def _b_legacy(rng):
+def _b_pyramid(rng, opt=None):
+    """One call, several objects: hd.seg.create_segmentation_pyramid through each of its
+    three input forms, with and without identifiers passed by the caller."""
+    import numpy as np
+    import highdicom as hd
+    import synth
+    opt = opt or {}
+    mode = opt.get('mode') or rng.choice(['factors', 'sources', 'arrays'])
+    levels = opt.get('levels') or rng.choice([2, 3])
+    sizes = [(24, 32), (12, 16), (6, 8)][:levels]
+    st = rng.choice(['BINARY', 'FRACTIONAL'])
+    nseg = rng.randint(1, 2)
+    dt = rng.choice(['uint8', 'bool'] if st == 'BINARY' else ['uint8', 'float32'])
+
+    def mask(r, c):
+        if dt == 'uint8' and st == 'BINARY':
+            return np.array([rng.randint(0, nseg) for _ in range(r * c)], np.uint8).reshape(r, c)
+        a = np.array([rng.random() < 0.4 for _ in range(r * c * nseg)]).reshape(1, r, c, nseg)
+        return a.astype(dt)
+    series, pyr = hd.UID(), hd.UID()
+    nsrc = levels if mode == 'sources' else 1
+    sources = []
+    for (r, c) in sizes[:nsrc]:
+        ds = synth.sm_tiled(r, c, 8, 8, spacing=(0.5 * sizes[0][0] / r, 0.5 * sizes[0][1] / c))
+        ds.SeriesInstanceUID, ds.PyramidUID = series, pyr
+        sources.append(ds)
+    arrays = [_relayout(mask(r, c), opt.get('layout', 'C')) for (r, c) in (sizes if mode == 'arrays' else sizes[:1])]
+    kw = {}
+    if mode == 'factors':
+        kw['downsample_factors'] = [2.0, 4.0][:levels - 1]
+    given = [hd.UID() for _ in range(levels)] if opt.get('uids') == 'given' else None
+    if given is not None:
+        kw['sop_instance_uids'] = given
+    descs = [synth.seg_description(k + 1) for k in range(nseg)]
+
+    def make():
+        return hd.seg.create_segmentation_pyramid(
+            source_images=sources, pixel_arrays=arrays, segmentation_type=st, segment_descriptions=descs,
+            series_instance_uid=None if opt.get('series') == 'default' else hd.UID(), series_number=1, manufacturer='m',
+            manufacturer_model_name='mm', software_versions='1', device_serial_number='sn', **kw)
+
+    def post(objs, backs):
+        if len(objs) != levels:
+            return f'{len(objs)} levels built, {levels} expected'
+        if given is not None and [str(o.SOPInstanceUID) for o in objs] != [str(u) for u in given]:
+            return 'sop_instance_uids passed by the caller are not the identifiers of the levels'
+        return None
+    return [sources, arrays, descs] + ([given] if given else []), make, post
+
+
+def _b_legacy(rng, opt=None):
     import highdicom as hd
     import synth
     from highdicom.legacy import LegacyConvertedEnhancedCTImage
@@ -744,7 +967,7 @@ def _b_legacy(rng):
 
 def _b_content(kind):
     """Content classes built on their own (not SOP instances)."""
-    def build(rng):
+    def build(rng, opt=None):
         import random
         sub = rng.getrandbits(32)
 
@@ -773,7 +996,7 @@ CONSTRUCTORS = {
     'seg_binary': _b_seg('BINARY'), 'seg_fractional': _b_seg('FRACTIONAL'), 'seg_labelmap': _b_seg('LABELMAP'),
     'pm': _b_pm, 'sc': _b_sc, 'sr_comprehensive': _b_sr('ComprehensiveSR'),
     'sr_comprehensive3d': _b_sr('Comprehensive3DSR'), 'sr_enhanced': _b_sr('EnhancedSR'),
-    'ko': _b_ko, 'ann': _b_ann, 'pr': _b_pr, 'legacy': _b_legacy,
+    'ko': _b_ko, 'ann': _b_ann, 'pr': _b_pr, 'legacy': _b_legacy, 'pyramid': _b_pyramid,
     'coded_concept': _b_content('coded_concept'), 'content_item': _b_content('content_item'),
     'segment_description': _b_content('segment_description'),
     'algorithm_identification': _b_content('algorithm_identification'),
@@ -784,8 +1007,8 @@ def _veq(a, b):
     import numpy as np
     from pydicom.multival import MultiValue
     if isinstance(a, (bytes, bytearray)) and isinstance(b, (bytes, bytearray)):
-        a, b = bytes(a), bytes(b)
-        return a == b or a + b'\0' == b or a == b + b'\0'
+        # element for element: a value the writer had to pad is NOT the value that was built
+        return bytes(a) == bytes(b)
     if isinstance(a, (list, tuple, MultiValue)) or isinstance(b, (list, tuple, MultiValue)):
         la = list(a) if isinstance(a, (list, tuple, MultiValue)) else [a]
         lb = list(b) if isinstance(b, (list, tuple, MultiValue)) else [b]
@@ -854,6 +1077,10 @@ def _validate_all(ds, path='ds'):
                 d = _validate_all(it, f'{path}.{e.keyword}[{i}]')
                 if d:
                     return d
+        elif isinstance(e.value, (bytes, bytearray)):
+            if len(e.value) % 2:
+                return (f'{path}.{e.keyword} ({e.VR}) holds {len(e.value)} bytes: DICOM values have even length, '
+                        f'the writer pads it and the file read back differs from the object')
         elif e.VR in STRING_VRS and e.value not in (None, ''):
             vals = [e.value] if isinstance(e.value, str) else list(e.value)
             for v in vals:
@@ -864,47 +1091,23 @@ def _validate_all(ds, path='ds'):
     return None
 
 
-def run_constructor(c):
-    import random
-    import warnings
+REJECTIONS = (ValueError, TypeError, NotImplementedError)
+
+
+def _check_object(target, obj, out):
+    """One constructed object: values valid, file meta carries the identifiers, strict
+    write, read back element for element.  Returns (violation or None, read-back)."""
     import pydicom
     from pydicom import config
     from pydicom.dataset import Dataset
-    warnings.simplefilter('ignore')
-    build = CONSTRUCTORS[c['target']]
-    strict = c.get('strict', 'write')      # RAISE from construction on | only when writing
     old = config.settings.writing_validation_mode
-    out = {'ran': True, 'strict': strict}
-    if strict == 'construct':
-        config.settings.writing_validation_mode = config.RAISE
-    try:
-        try:
-            args, make = build(random.Random(c['seed']))
-            before = [_snap(a) for a in args]
-            obj = make()
-        except Exception as ex:
-            if strict != 'construct':
-                raise
-            out['violation'] = (f"{c['target']}: valid arguments cannot be built with "
-                                f"writing_validation_mode=RAISE: {type(ex).__name__}: {ex}")[:400]
-            return out
-    finally:
-        config.settings.writing_validation_mode = old
-    after = [_snap(a) for a in args]
-    out['class'] = type(obj).__name__
-    for i, (x, y) in enumerate(zip(before, after)):
-        d = _first_diff(x, y, f'argument#{i}')
-        if d:
-            out['violation'] = f"{c['target']} constructor modified its input: {d}"
-            return out
     holder = obj
     if not isinstance(obj, Dataset):      # a sequence class
         holder = Dataset()
         holder.ContentSequence = obj
     d = _validate_all(holder)
     if d:
-        out['violation'] = f"{c['target']}: constructed object holds a value pydicom refuses to write: {d}"
-        return out
+        return f"{target}: constructed object holds a value pydicom refuses to write: {d}", None
     if 'SOPInstanceUID' not in holder:
         # content class: write it as an item of a bare dataset and read it back
         wrap = Dataset()
@@ -915,72 +1118,355 @@ def run_constructor(c):
             try:
                 wrap.save_as(b, implicit_vr=False, little_endian=True)
             except Exception as ex:
-                out['violation'] = f"{c['target']}: strict write failed: {type(ex).__name__}: {ex}"[:400]
-                return out
+                return f"{target}: strict write failed: {type(ex).__name__}: {ex}"[:400], None
         finally:
             config.settings.writing_validation_mode = old
         back = pydicom.dcmread(io.BytesIO(b.getvalue()), force=True)
         d = _cmp_ds(wrap, back)
-        if d:
-            out['violation'] = f"{c['target']}: read-back differs: {d}"
-        return out
+        return (f"{target}: read-back differs: {d}" if d else None), back
     # identifiers in the file meta of the object as built (pydicom's writer would repair them)
     fm0 = getattr(obj, 'file_meta', None)
     if fm0 is None or str(fm0.get('MediaStorageSOPInstanceUID', '')) != str(obj.SOPInstanceUID) or \
             str(fm0.get('MediaStorageSOPClassUID', '')) != str(obj.SOPClassUID):
-        out['violation'] = (f"{c['target']}: file meta of the constructed object carries "
-                            f"{fm0.get('MediaStorageSOPInstanceUID', None) if fm0 is not None else None} / "
-                            f"{fm0.get('MediaStorageSOPClassUID', None) if fm0 is not None else None}, dataset has "
-                            f"{obj.SOPInstanceUID} / {obj.SOPClassUID}")
-        return out
+        return (f"{target}: file meta of the constructed object carries "
+                f"{fm0.get('MediaStorageSOPInstanceUID', None) if fm0 is not None else None} / "
+                f"{fm0.get('MediaStorageSOPClassUID', None) if fm0 is not None else None}, dataset has "
+                f"{obj.SOPInstanceUID} / {obj.SOPClassUID}"), None
     config.settings.writing_validation_mode = config.RAISE
     try:
         b = io.BytesIO()
         try:
             obj.save_as(b, enforce_file_format=True)
         except Exception as ex:
-            out['violation'] = f"{c['target']}: strict write failed: {type(ex).__name__}: {ex}"[:400]
-            return out
+            return f"{target}: strict write failed: {type(ex).__name__}: {ex}"[:400], None
     finally:
         config.settings.writing_validation_mode = old
     back = pydicom.dcmread(io.BytesIO(b.getvalue()))
     d = _cmp_ds(obj, back)
     if d:
-        out['violation'] = f"{c['target']}: read-back differs: {d}"
-        return out
+        return f"{target}: read-back differs: {d}", back
     fm = back.file_meta
     if str(fm.MediaStorageSOPInstanceUID) != str(obj.SOPInstanceUID) or \
             str(fm.MediaStorageSOPClassUID) != str(obj.SOPClassUID) or 'TransferSyntaxUID' not in fm:
-        out['violation'] = f"{c['target']}: file meta does not carry the instance identifiers"
-        return out
+        return f"{target}: file meta does not carry the instance identifiers", back
     us = []
     _uids(obj, us)
     for p, u in us:
         if not _uid_ok(u):
-            out['violation'] = f"{c['target']}: {p} = {u!r} is not a valid UID"
-            return out
-    # identifiers generated by the library are new on every call
-    obj2 = make()
-    us2 = []
-    _uids(obj2, us2)
-    in_args = set()
+            return f"{target}: {p} = {u!r} is not a valid UID", back
+    return None, back
 
-    def collect(x):
-        if isinstance(x, pydicom.Dataset):
-            acc = []
-            _uids(x, acc)
-            in_args.update(u for _, u in acc)
-        elif hasattr(x, '__iter__') and not isinstance(x, (str, bytes)) and not hasattr(x, 'dtype'):
-            for y in x:
-                collect(y)
-    collect(args)
+
+def _uids_in(x, acc):
+    import pydicom
+    if isinstance(x, pydicom.Dataset):
+        a = []
+        _uids(x, a)
+        acc.update(u for _, u in a)
+    elif isinstance(x, str):
+        acc.add(x)
+    elif hasattr(x, '__iter__') and not isinstance(x, bytes) and not hasattr(x, 'dtype'):
+        for y in x:
+            _uids_in(y, acc)
+
+
+def run_constructor(c):
+    import random
+    import warnings
+    from pydicom import config
+    warnings.simplefilter('ignore')
+    target = c['target']
+    build = CONSTRUCTORS[target]
+    strict = c.get('strict', 'write')      # RAISE from construction on | only when writing
+    opt = c.get('opt') or {}
+    exotic = any(w in str(opt.get('layout', '')) for w in ('swapped', 'readonly'))
+    old = config.settings.writing_validation_mode
+    out = {'ran': True, 'strict': strict}
+    label = target + (f' {opt}' if opt else '')
+    if strict == 'construct':
+        config.settings.writing_validation_mode = config.RAISE
+    args = before = None
+    try:
+        try:
+            built = build(random.Random(c['seed']), opt)
+            args, make = built[0], built[1]
+            post = built[2] if len(built) > 2 else None
+            before = [_snap(a) for a in args]
+            obj = make()
+        except Exception as ex:
+            if before is not None:
+                for i, (x, y) in enumerate(zip(before, [_snap(a) for a in args])):
+                    d = _first_diff(x, y, f'argument#{i}')
+                    if d:
+                        out['violation'] = f"{label} constructor raised {type(ex).__name__} AND modified its input: {d}"
+                        return out
+            if 'read-only' in str(ex):
+                out['violation'] = (f"{label} constructor writes to an array passed to it "
+                                    f"(write-protected input): {type(ex).__name__}: {ex}")[:400]
+                return out
+            if before is not None and exotic and isinstance(ex, REJECTIONS):
+                # an unusual but valid array may be refused - as long as it is left alone
+                out['ran'] = False
+                out['rejected'] = f'{type(ex).__name__}: {ex}'[:200]
+                return out
+            if strict != 'construct':
+                raise
+            out['violation'] = (f"{label}: valid arguments cannot be built with "
+                                f"writing_validation_mode=RAISE: {type(ex).__name__}: {ex}")[:400]
+            return out
+    finally:
+        config.settings.writing_validation_mode = old
+    after = [_snap(a) for a in args]
+    objs = list(obj) if isinstance(obj, list) else [obj]
+    out['class'] = type(objs[0]).__name__
+    out['objects'] = len(objs)
+    for i, (x, y) in enumerate(zip(before, after)):
+        d = _first_diff(x, y, f'argument#{i}')
+        if d:
+            out['violation'] = f"{label} constructor modified its input: {d}"
+            return out
+    backs = []
+    for k, o in enumerate(objs):
+        v, back = _check_object(label + (f' [object {k}]' if len(objs) > 1 else ''), o, out)
+        if v:
+            out['violation'] = v
+            return out
+        backs.append(back)
+    if post is not None:
+        d = post(obj, backs if isinstance(obj, list) else backs[0])
+        if d:
+            out['violation'] = f"{label}: {d}"
+            return out
+    if 'SOPInstanceUID' not in objs[0]:
+        return out
+    # every object built by ONE call has its own identifier (also in the file meta) ...
+    sops = [str(o.SOPInstanceUID) for o in objs]
+    metas = [str(b.file_meta.MediaStorageSOPInstanceUID) for b in backs]
+    if len(set(sops)) != len(sops) or len(set(metas)) != len(metas):
+        rep = next(u for u in sops if sops.count(u) > 1) if len(set(sops)) != len(sops) else metas[0]
+        out['violation'] = (f"{label}: {len(sops)} objects built by one call share the SOP Instance UID {rep} "
+                            f"(identifiers of the objects: {[u[-12:] for u in sops]})")
+        return out
+    # ... and identifiers generated by the library are new on every call
+    obj2 = make()
+    objs2 = list(obj2) if isinstance(obj2, list) else [obj2]
+    us, us2 = [], []
+    for o in objs:
+        _uids(o, us)
+    for o in objs2:
+        _uids(o, us2)
+    in_args = set()
+    _uids_in(args, in_args)
     g1 = {u for _, u in us if u.startswith(HD_ROOT) and u not in in_args}
     g2 = {u for _, u in us2 if u.startswith(HD_ROOT) and u not in in_args}
     out['generated_uids'] = len(g1)
-    if str(obj.SOPInstanceUID) == str(obj2.SOPInstanceUID) or (g1 & g2):
-        out['violation'] = f"{c['target']}: identifiers repeated across two constructions: {sorted(g1 & g2)[:2]}"
+    explicit = any(str(o.SOPInstanceUID) in in_args for o in objs)     # identifiers the caller passed stay
+    if (not explicit and set(sops) & {str(o.SOPInstanceUID) for o in objs2}) or (g1 & g2):
+        out['violation'] = f"{label}: identifiers repeated across two calls: {sorted(g1 & g2)[:2]}"
         return out
     return out
+
+
+# ---- model-compared object kinds ------------------------------------------------
+PLAIN_LUTS = ('LUT', 'VOILUT', 'ModalityLUT', 'PresentationLUT')
+
+
+def _viol(msg):
+    return Err('VIOLATION ' + msg[:400])
+
+
+def _unchanged(before, owned, what):
+    for i, (x, y) in enumerate(zip(before, [_snap(a) for a in owned])):
+        d = _first_diff(x, y, f'argument#{i}')
+        if d:
+            return _viol(f'{what} modified its input: {d}')
+    return None
+
+
+def run_lut(c):
+    """Look-up table classes: what is stored for the table the caller passed.
+    Output [descriptor, stored bytes] (plain / palette LUT) or [descriptor, [r, g, b]]
+    (transformation, possibly read off the object it was placed in)."""
+    import numpy as np
+    import highdicom as hd
+    import synth
+    from pydicom.sr.codedict import codes
+    bits, first, cls, lay = c['bits'], c['first'], c['cls'], c.get('layout', 'C')
+    dt = np.uint8 if bits == 8 else np.uint16
+    what = f"{cls}({c.get('via') or ''}{', in ' + c['holder'] if c.get('holder') else ''}, {bits} bit, " \
+           f"{len(c['r'])} entries, layout {lay})"
+    owned = before = None
+    try:
+        if cls in PLAIN_LUTS or cls == 'PaletteColorLUT':
+            data = _relayout(np.array(c['r'], dt), lay)
+            owned, before = [data], [_snap(data)]
+            if cls == 'PaletteColorLUT':
+                obj = hd.PaletteColorLUT(first, data, 'red')
+                key = 'RedPaletteColorLookupTable'
+            else:
+                obj = {'LUT': lambda: hd.LUT(first, data, 'x'), 'VOILUT': lambda: hd.VOILUT(first, data),
+                       'ModalityLUT': lambda: hd.ModalityLUT('HU', first, data),
+                       'PresentationLUT': lambda: hd.PresentationLUT(first, data)}[cls]()
+                key = 'LUT'
+            result = [[int(x) for x in obj[key + 'Descriptor'].value], list(bytes(obj[key + 'Data'].value))]
+            got = obj.lut_data
+            target = obj
+        else:
+            tf, owned = _palette_from(bits, first, c['r'], c['g'], c['b'], c['via'], lay)
+            before = [_snap(a) for a in owned]
+            target = tf
+            if c.get('holder') == 'seg':
+                n = len(c['r'])
+                src = synth.ct_series(1, 2, 3)
+                arr = (np.arange(6, dtype=np.uint8).reshape(1, 2, 3) % min(n, 3))
+                nseg = int(arr.max())
+                target = hd.seg.Segmentation(src, arr, 'LABELMAP', [synth.seg_description(k + 1) for k in range(nseg)],
+                                             hd.UID(), 1, hd.UID(), 1, 'm', 'mm', '1', 'sn',
+                                             palette_color_lut_transformation=tf)
+            elif c.get('holder') == 'pm':
+                src = synth.ct_series(1, 2, 3)
+                target = hd.pm.ParametricMap(
+                    src, np.arange(6, dtype=np.uint16).reshape(1, 2, 3, 1), hd.UID(), 1, hd.UID(), 1, 'm', 'mm', '1', 'sn',
+                    contains_recognizable_visual_features=False,
+                    real_world_value_mappings=[[hd.pm.RealWorldValueMapping(
+                        'l', 'e', codes.UCUM.NoUnits, (0, 65535), slope=1, intercept=0)]],
+                    palette_color_lut_transformation=tf)
+            elif c.get('holder') == 'pr':
+                target = hd.pr.PseudoColorSoftcopyPresentationState(
+                    synth.ct_series(1, 4, 4), hd.UID(), 1, hd.UID(), 1, 'm', 'mm', '1', 'sn', tf, 'LABEL')
+            seg_ = 'Segmented' if c['via'] == 'segmented' else ''
+            result = [[int(x) for x in target['RedPaletteColorLookupTableDescriptor'].value],
+                      [list(bytes(target[f'{seg_}{col}PaletteColorLookupTableData'].value))
+                       for col in ('Red', 'Green', 'Blue')]]
+            got = None
+            if target is tf and c['via'] != 'segmented':
+                got = tf.red_lut.lut_data
+    except REJECTIONS as ex:
+        if 'read-only' in str(ex):
+            return _viol(f'{what} writes to the array passed to it: {ex}')
+        if before is not None:
+            v = _unchanged(before, owned, what)
+            if v:
+                return v
+        return Err(type(ex).__name__)
+    v = _unchanged(before, owned, what)
+    if v:
+        return v
+    if got is not None and [int(x) for x in got] != [int(x) for x in c['r']]:
+        return _viol(f'{what}: lut_data of the object is {[int(x) for x in got][:6]}, the caller passed {c["r"][:6]}')
+    viol, _ = _check_object(what, target, {})
+    if viol:
+        return _viol(viol)
+    return result
+
+
+def _lut_expected(c):
+    """Independent of the model: numpy little-endian image of the tables, padded to even length."""
+    import numpy as np
+    code = '<u1' if c['bits'] == 8 else '<u2'
+
+    def enc(col):
+        if c.get('via') == 'segmented':
+            col = [v for x in col for v in (0, 1, x)]
+        raw = np.array(col, code).tobytes()
+        return list(raw + (b'\0' if len(raw) % 2 else b''))
+    n = len(c['r'])
+    desc = [0 if n == 65536 else n, c['first'], c['bits']]
+    if c['cls'] in PLAIN_LUTS or c['cls'] == 'PaletteColorLUT':
+        return [desc, enc(c['r'])]
+    return [desc, [enc(c['r']), enc(c['g']), enc(c['b'])]]
+
+
+def run_pyr_ids(c):
+    """create_segmentation_pyramid: number of levels and which levels share a SOP Instance UID."""
+    import secrets
+    import numpy as np
+    import highdicom as hd
+    import synth
+    sizes = [(32, 32), (16, 16), (8, 8), (4, 4)]
+    series, pyr = hd.UID(), hd.UID()
+    sources = []
+    for (r, cc) in sizes[:c['n_src']]:
+        ds = synth.sm_tiled(r, cc, 8, 8, spacing=(0.5 * 32 / r, 0.5 * 32 / cc))
+        ds.SeriesInstanceUID, ds.PyramidUID = series, pyr
+        sources.append(ds)
+    arrays = [((np.arange(r * cc).reshape(r, cc) % 3) == 0).astype(np.uint8) for (r, cc) in sizes[:c['n_pix']]]
+    kw = {}
+    if c['factors4'] is not None:
+        kw['downsample_factors'] = [f / 4 for f in c['factors4']]
+    given = None
+    if c['given'] is not None:
+        given = [hd.UID(HD_ROOT + str(d)) for d in c['given']]
+        kw['sop_instance_uids'] = given
+    before = [_snap(arrays), _snap(sources)]
+    counter = [c.get('base', 1000)]
+    orig = secrets.randbelow
+
+    def fake(m):            # distinct draws: a repeated identifier is the library's doing
+        counter[0] += 1
+        return counter[0]
+    secrets.randbelow = fake
+    try:
+        try:
+            segs = hd.seg.create_segmentation_pyramid(
+                sources, arrays, 'BINARY', [synth.seg_description(1)], series_number=1, manufacturer='m',
+                manufacturer_model_name='mm', software_versions='1', device_serial_number='sn', **kw)
+        except REJECTIONS as ex:
+            return Err(type(ex).__name__)
+    finally:
+        secrets.randbelow = orig
+    v = _unchanged(before, [arrays, sources], 'create_segmentation_pyramid')
+    if v:
+        return v
+    sops = [str(sg.SOPInstanceUID) for sg in segs]
+    if given is not None and sops != [str(u) for u in given]:
+        return _viol('sop_instance_uids passed by the caller are not the identifiers of the levels')
+    for sg in segs:
+        if str(sg.file_meta.MediaStorageSOPInstanceUID) != str(sg.SOPInstanceUID) or not _uid_ok(str(sg.SOPInstanceUID)):
+            return _viol('file meta of a level does not carry its (valid) SOP Instance UID')
+    return [len(segs), [sops.index(u) for u in sops]]
+
+
+def _pm_native_array(c):
+    import numpy as np
+    code = ('>' if c['be'] else '<') + ('f4' if c['k'] == 4 else 'f8')
+    a = np.array(c['vals'], code)                      # planes x pixels x mappings
+    P, npx, M = a.shape
+    return a.reshape(P, c['rows'], npx // c['rows'], M)
+
+
+def run_pm_native(c):
+    """Parametric Map, native transfer syntax, float pixel array given value by value: the
+    bytes of the (Double)FloatPixelData element."""
+    import numpy as np
+    import highdicom as hd
+    import synth
+    from pydicom.sr.codedict import codes
+    a4 = _pm_native_array(c)
+    P, rows, cols, M = a4.shape
+    arr = a4 if c['ndim'] == 4 else (a4[..., 0] if c['ndim'] == 3 else a4[0, :, :, 0])
+    arr = _relayout(arr, c.get('layout', 'C')) if c.get('layout', 'C') != 'C' else np.ascontiguousarray(arr)
+    flat = [hd.pm.RealWorldValueMapping(f'm{j}', 'e', codes.UCUM.NoUnits, (-1e30, 1e30), slope=1.0, intercept=0.0)
+            for j in range(M)]
+    maps = [[m] for m in flat] if c['ndim'] == 4 else flat
+    src = synth.ct_series(P, rows, cols)
+    before = [_snap(arr)]
+    try:
+        pm = hd.pm.ParametricMap(src, arr, hd.UID(), 1, hd.UID(), 1, 'm', 'mm', '1', 'sn',
+                                 contains_recognizable_visual_features=False, real_world_value_mappings=maps,
+                                 window_center=1.0, window_width=2.0)
+    except REJECTIONS as ex:
+        if 'read-only' in str(ex):
+            return _viol(f'ParametricMap writes to the pixel array passed to it: {ex}')
+        v = _unchanged(before, [arr], 'ParametricMap')
+        return v or Err(type(ex).__name__)
+    v = _unchanged(before, [arr], f'ParametricMap(pixel_array {arr.dtype.str}{list(arr.shape)}, {M} mapping(s))')
+    if v:
+        return v
+    kwd = 'FloatPixelData' if c['k'] == 4 else 'DoubleFloatPixelData'
+    if kwd not in pm:
+        return Err('no ' + kwd)
+    return list(bytes(pm[kwd].value))
 
 
 # --------------------------------------------------------------------------
@@ -1059,6 +1545,188 @@ def gen_cases(rng, tier):
         for i in range(reps * n):
             cases.append({'kind': 'ctor', 'target': t, 'seed': rng.getrandbits(32),
                           'strict': 'construct' if i % 2 else 'write'})
+    cases += _gen_layout_cases(rng, n)
+    cases += _gen_multi_cases(rng, n)
+    cases += _gen_lut_cases(rng, n)
+    cases += _gen_pyr_id_cases(rng, n)
+    cases += _gen_pm_native_cases(rng, n)
+    return [c for c in cases if _drawn(c)]
+
+
+def _ctor(rng, target, opt, i=0):
+    return {'kind': 'ctor_layout' if 'layout' in opt else 'ctor_multi' if target == 'pyramid' else 'ctor_opt',
+            'target': target, 'seed': rng.getrandbits(32), 'strict': 'construct' if i % 2 else 'write', 'opt': opt}
+
+
+def _gen_layout_cases(rng, n):
+    """Every array-taking constructor x memory layout x dtype (incl. non-native byte order)
+    x rank; palette colour tables (8/16 bit, odd/even size, each entry point) inside objects."""
+    cases = []
+    i = 0
+    for lay in LAYOUTS:
+        # Parametric Map: rank 2 / 3 / 4, one or several mappings, every dtype
+        for ndim, maps in ((2, 1), (3, 1), (4, 1), (4, 2)):
+            dts = ['f4', 'f8'] + ([rng.choice(['u1', 'u2'])] if n == 1 else ['u1', 'u2'])
+            for dt in (dts if ndim != 3 or n > 1 else [rng.choice(dts)]):
+                i += 1
+                cases.append(_ctor(rng, 'pm', {'layout': lay, 'ndim': ndim, 'maps': maps, 'dtype': dt}, i))
+        for t, dts in (('seg_binary', ['uint8', 'uint16', 'bool']), ('seg_labelmap', ['uint8', 'uint16']),
+                       ('seg_fractional', ['uint8', 'float32', 'float64', 'bool'])):
+            for dt in (dts if n > 1 else rng.sample(dts, 2)):
+                i += 1
+                cases.append(_ctor(rng, t, {'layout': lay, 'dtype': dt}, i))
+        for k in (['u8', 'u16', 'rgb'] if n > 1 else [rng.choice(['u8', 'rgb']), 'u16']):
+            i += 1
+            cases.append(_ctor(rng, 'sc', {'layout': lay, 'sc_kind': k}, i))
+        cases.append(_ctor(rng, 'ann', {'layout': lay}, i))
+        cases.append(_ctor(rng, 'pyramid', {'layout': lay, 'mode': rng.choice(['factors', 'arrays'])}, i))
+        cases.append(_ctor(rng, 'pr', {'layout': lay, 'pr': rng.choice(['voilut', 'modlut', 'pseudocolor']),
+                                       'entries': rng.choice([3, 4, 5])}, i))
+    for bits in (8, 16):
+        for entries in (3, 4, 5, 7, 255, 256):
+            for via in (['luts', 'combined', 'colors'] if bits == 8 else ['luts', 'combined']):
+                if n == 1 and entries in (7, 255) and via != rng.choice(['luts', 'combined']):
+                    continue
+                i += 1
+                cases.append(_ctor(rng, 'seg_labelmap', {'palette': [bits, entries, via]}, i))
+        for entries in (3, 4):
+            cases.append(_ctor(rng, 'pm', {'palette': [bits, entries, 'luts'], 'dtype': 'u2', 'ndim': 3}, i))
+    return cases
+
+
+def _gen_multi_cases(rng, n):
+    cases = []
+    i = 0
+    for _ in range(n):
+        for mode in ('factors', 'sources', 'arrays'):
+            for levels in (2, 3):
+                for uids in (None, 'given'):
+                    i += 1
+                    cases.append(_ctor(rng, 'pyramid', {'mode': mode, 'levels': levels, 'uids': uids,
+                                                        'series': rng.choice(['default', 'given'])}, i))
+    return cases
+
+
+def _recorded(fid):
+    """A defect of the code as it is that this check found is drawn once it is listed in
+    KNOWN_FINDINGS.json (open: reported as KNOWN-FINDING, fixed: must pass)."""
+    return bool(os.environ.get('C20_ALL_FINDINGS')) or any(f.get('id') == fid for f in common.load_findings(PROPERTY))
+
+
+def _finding_lut_unpadded(c):
+    # content.py LUT.__init__ / SegmentedPaletteColorLUT.__init__: 8-bit table, odd number of bytes, no pad
+    if c.get('kind') != 'lut' or c['bits'] != 8:
+        return False
+    if c['cls'] in PLAIN_LUTS:
+        return len(c['r']) % 2 == 1
+    return c.get('via') == 'segmented' and len(c['r']) % 2 == 1
+
+
+def _finding_lut_byteorder(c):
+    # LUT / PaletteColorLUT / SegmentedPaletteColorLUT: lut_data.tobytes() of a non-native 16-bit array
+    return c.get('kind') == 'lut' and c['bits'] == 16 and 'swapped' in c.get('layout', '') and \
+        c.get('via') not in ('colors',)
+
+
+def _finding_sc_unpadded(c):
+    # sc/sop.py SCImage: a native 8-bit frame with an odd number of bytes is stored without pad byte
+    if not str(c.get('kind', '')).startswith('ctor') or c.get('target') != 'sc':
+        return False
+    import random
+    kind, rows, cols = _sc_shape(random.Random(c['seed']), c.get('opt') or {})
+    return kind != 'u16' and (rows * cols * (3 if kind == 'rgb' else 1)) % 2 == 1
+
+
+FINDINGS = {'D93': _finding_lut_unpadded, 'D94': _finding_lut_byteorder, 'D95': _finding_sc_unpadded}
+
+
+def _drawn(c):
+    """Cases that hit a defect this check found in the code as it is are drawn once the defect is recorded."""
+    fid = next((k for k, pred in FINDINGS.items() if pred(c)), None)
+    return fid is None or _recorded(fid)
+
+
+def _gen_lut_cases(rng, n):
+    cases = []
+
+    def col(bits, k):
+        return [rng.choice([0, 1, 2 ** bits - 1, rng.randrange(2 ** bits)]) for _ in range(k)]
+    sizes = [1, 2, 3, 4, 5, 7, 8, 255, 256, 257]
+    for bits in (8, 16):
+        for k in sizes:
+            if k > 2 ** bits and rng.random() < 0.5:
+                continue
+            for cls in ('PaletteColorLUT',) + PLAIN_LUTS:
+                if n == 1 and cls in PLAIN_LUTS[1:] and k not in (3, 4, 256):
+                    continue
+                cases.append({'kind': 'lut', 'cls': cls, 'bits': bits, 'first': rng.choice([0, 0, 1, 2 ** bits - 1]),
+                              'r': col(bits, k), 'layout': rng.choice(['C', 'C', 'strided', 'offset', 'readonly'])})
+            for via in ('luts', 'combined', 'colors', 'segmented'):
+                if via == 'colors' and bits == 16:
+                    continue
+                if n == 1 and k in (1, 2, 8, 257) and via != 'luts':
+                    continue
+                holder = rng.choice([None, None, 'seg', 'pm', 'pr']) if via in ('luts', 'combined') else \
+                    rng.choice([None, 'seg']) if via == 'colors' else None
+                cases.append({'kind': 'lut', 'cls': 'PaletteColorLUTTransformation', 'via': via, 'bits': bits,
+                              'first': 0 if holder else rng.choice([0, 1]), 'r': col(bits, k), 'g': col(bits, k),
+                              'b': col(bits, k), 'holder': holder,
+                              'layout': rng.choice(['C', 'strided', 'readonly']) if via != 'colors' else 'C'})
+    # refusals: first mapped value / number of entries outside the table, unequal tables
+    for bits, first, k in ((8, 256, 3), (8, -1, 3), (16, 65536, 2), (8, 0, 0), (16, 0, 0)):
+        cases.append({'kind': 'lut', 'cls': 'PaletteColorLUT', 'bits': bits, 'first': first, 'r': col(bits, k),
+                      'layout': 'C'})
+        cases.append({'kind': 'lut', 'cls': 'LUT', 'bits': bits, 'first': first, 'r': col(bits, k), 'layout': 'C'})
+    for bits in (8, 16):
+        cases.append({'kind': 'lut', 'cls': 'PaletteColorLUTTransformation', 'via': 'luts', 'bits': bits, 'first': 0,
+                      'r': col(bits, 3), 'g': col(bits, 4), 'b': col(bits, 3), 'holder': None, 'layout': 'C'})
+    # 16-bit tables in non-native byte order
+    for cls in ('PaletteColorLUT', 'LUT'):
+        cases.append({'kind': 'lut', 'cls': cls, 'bits': 16, 'first': 0, 'r': col(16, 4), 'layout': 'swapped'})
+    for via in ('luts', 'combined', 'segmented'):
+        cases.append({'kind': 'lut', 'cls': 'PaletteColorLUTTransformation', 'via': via, 'bits': 16, 'first': 0,
+                      'r': col(16, 4), 'g': col(16, 4), 'b': col(16, 4), 'holder': None,
+                      'layout': rng.choice(['swapped', 'swapped_readonly'])})
+    return cases
+
+
+def _gen_pyr_id_cases(rng, n):
+    cases = []
+    combos = [(1, 1, [8], None), (1, 1, [8, 16], None), (1, 1, [6, 8, 16], None), (1, 1, [8, 8], None),
+              (2, 1, None, None), (3, 1, None, None), (1, 2, None, None), (1, 3, None, None),
+              (2, 2, None, None), (3, 3, None, None),
+              # identifiers of the caller: right / wrong number, repeated ones are the caller's business
+              (1, 1, [8], [5, 6]), (1, 1, [8, 16], [5, 6, 7]), (1, 1, [8], [5, 5]), (1, 1, [8], [5]),
+              (1, 1, [8], [5, 6, 7]), (3, 1, None, [1, 2, 3]), (3, 1, None, [1, 2]), (1, 2, None, [9, 10]),
+              (2, 2, None, [10 ** 34, 10 ** 34 + 1]),
+              # refusals
+              (0, 1, None, None), (1, 0, None, None), (0, 0, [8], None), (1, 1, None, None), (1, 1, [], None),
+              (1, 1, [4], None), (1, 1, [2], None), (1, 1, [16, 8], None), (1, 1, [8, 4], None),
+              (2, 1, [8], None), (1, 2, [8], None), (2, 3, None, None), (3, 2, None, None), (2, 2, [8], None)]
+    for a, b, f, g in combos:
+        cases.append({'kind': 'pyr_ids', 'n_src': a, 'n_pix': b, 'factors4': f, 'given': g,
+                      'base': rng.randrange(10 ** rng.randint(1, 30))})
+    for _ in range(6 * n):
+        a, b = rng.choice([(1, 1), (1, 1), (rng.randint(0, 3), rng.randint(0, 3))])
+        f = rng.choice([None, [rng.choice([2, 4, 5, 6, 8, 16]) for _ in range(rng.randint(0, 3))]])
+        g = rng.choice([None, None, [rng.randrange(10 ** 6) for _ in range(rng.randint(1, 4))]])
+        cases.append({'kind': 'pyr_ids', 'n_src': a, 'n_pix': b, 'factors4': f, 'given': g,
+                      'base': rng.randrange(10 ** 20)})
+    return cases
+
+
+def _gen_pm_native_cases(rng, n):
+    cases = []
+    pool = [0.0, 1.0, -1.0, 0.5, -2.25, 1.5, 1024.0, 3.0e-5 * 2 ** 20, -0.0, 255.0, 65535.0, 2.0 ** -10]
+    for be in (False, True):
+        for k in (4, 8):
+            for ndim, M in ((2, 1), (3, 1), (4, 1), (4, 2)):
+                for lay in (['C', 'readonly'] if n == 1 else ['C', 'readonly', 'offset', 'strided']):
+                    rows, cols = rng.choice([(1, 2), (2, 2), (2, 3)])
+                    P = 1 if ndim == 2 else rng.randint(1, 2)
+                    vals = [[[rng.choice(pool) for _ in range(M)] for _ in range(rows * cols)] for _ in range(P)]
+                    cases.append({'kind': 'pm_native', 'be': be, 'k': k, 'ndim': ndim, 'rows': rows, 'vals': vals,
+                                  'layout': lay})
     return cases
 
 
@@ -1128,8 +1796,14 @@ def run_impl(c):
         return us
     if k == 'conv':
         return run_converter(c)
-    if k == 'ctor':
+    if k in ('ctor', 'ctor_layout', 'ctor_multi', 'ctor_opt'):
         return run_constructor(c)
+    if k == 'lut':
+        return run_lut(c)
+    if k == 'pyr_ids':
+        return run_pyr_ids(c)
+    if k == 'pm_native':
+        return run_pm_native(c)
     raise ValueError(k)
 
 
@@ -1145,6 +1819,32 @@ def coq_term(c):
         return f"(run_uid 1 {zlit(int(c['n']))})"
     if k == 'uid_valid':
         return f"(run_uid_valid {zl(c['s'])})"
+    if k == 'lut':
+        if any(pred(c) for pred in FINDINGS.values()) or c.get('via') == 'segmented':
+            return None        # reported defect of the code as it is / segmented tables: oracle only
+        if c['cls'] == 'PaletteColorLUT':
+            return f"(run_palette_lut {c['bits']} {zlit(c['first'])} {zl(c['r'])})"
+        if c['cls'] in PLAIN_LUTS:
+            return f"(run_plain_lut {c['bits']} {zlit(c['first'])} {zl(c['r'])})"
+        return f"(run_palette_tf {c['bits']} {zlit(c['first'])} {zl(c['r'])} {zl(c['g'])} {zl(c['b'])})"
+    if k == 'pyr_ids':
+        f = 'None' if c['factors4'] is None else f"(Some {zl(c['factors4'])})"
+        g = 'None' if c['given'] is None else f"(Some {zl(c['given'])})"
+        return f"(run_pyramid_ids {c['n_src']} {c['n_pix']} {f} {g})"
+    if k == 'pm_native':
+        a = _pm_native_array(c)
+        P, rows, cols, M = a.shape
+        raw = a.tobytes()
+        kk = c['k']
+        items = [list(raw[i:i + kk]) for i in range(0, len(raw), kk)]       # memory order, C-contiguous
+        planes = []
+        for p in range(P):
+            pxs = []
+            for q in range(rows * cols):
+                base = (p * rows * cols + q) * M
+                pxs.append('[' + '; '.join(zl(items[base + j]) for j in range(M)) + ']')
+            planes.append('[' + '; '.join(pxs) + ']')
+        return f"(run_pm_native {'true' if c['be'] else 'false'} {M} [{'; '.join(planes)}])"
     return None
 
 
@@ -1189,8 +1889,41 @@ def oracle(c, out):
             return 'two calls returned the same identifier'
         bad = [u for u in out if not _uid_ok(u)]
         return f'invalid identifier {bad[0]}' if bad else None
-    if k in ('conv', 'ctor'):
+    if k in ('conv', 'ctor', 'ctor_layout', 'ctor_multi', 'ctor_opt'):
         return out.get('violation') if isinstance(out, dict) else f'unexpected output {out!r}'
+    if isinstance(out, Err) and out.kind.startswith('VIOLATION'):
+        return out.kind[len('VIOLATION '):]
+    if k == 'lut':
+        if isinstance(out, Err):
+            return None          # refusal; which inputs are refused is the model's side of the comparison
+        stored = [out[1]] if c['cls'] in PLAIN_LUTS or c['cls'] == 'PaletteColorLUT' else out[1]
+        for col, st in zip(('red', 'green', 'blue'), stored):
+            if len(st) % 2:
+                return (f"{c['cls']} holds an odd-length ({len(st)} bytes) {col if len(stored) > 1 else ''} table: "
+                        f"the writer pads it and the file read back differs from the object")
+        want = _lut_expected(c)
+        if out != want:
+            return (f"{c['cls']}: stored descriptor/table {str(out)[:120]} is not the little-endian image of the "
+                    f"caller's table (padded to even length) {str(want)[:120]}")
+        return None
+    if k == 'pyr_ids':
+        if isinstance(out, Err):
+            return None
+        nlev, part = out
+        if c['given'] is None and part != list(range(nlev)):
+            return (f'create_segmentation_pyramid built {nlev} levels whose SOP Instance UIDs repeat '
+                    f'(first occurrence of each: {part}); identifiers must be unique per constructed object')
+        if c['given'] is not None and part != [c['given'].index(d) for d in c['given']]:
+            return f'levels do not carry the identifiers passed by the caller (pattern {part})'
+        return None
+    if k == 'pm_native':
+        if isinstance(out, Err):
+            return f'valid float pixel array refused: {out.kind}' if c.get('layout', 'C') == 'C' else None
+        a = _pm_native_array(c)
+        want = a.astype(a.dtype.newbyteorder('<')).transpose(0, 3, 1, 2).tobytes()
+        if bytes(out) != want:
+            return 'stored float pixel data are not the little-endian values of the array passed in'
+        return None
     return f'unknown kind {k}'
 
 
@@ -1198,8 +1931,10 @@ def nontrivial(c, out):
     k = c['kind']
     if k in ('guard', 'valid', 'uid_valid'):
         return bool(out) or len(c['s']) > 1
-    if k in ('conv', 'ctor'):
+    if k in ('conv', 'ctor', 'ctor_layout', 'ctor_multi', 'ctor_opt'):
         return isinstance(out, dict) and out.get('ran', False)
+    if k in ('lut', 'pyr_ids', 'pm_native'):
+        return not isinstance(out, Err)
     return True
 
 
@@ -1210,6 +1945,23 @@ def shrink(c):
     if 'n' in c and int(c['n']) > 0:
         yield dict(c, n=str(int(c['n']) // 10))
         yield dict(c, n='0')
+    if c.get('kind') == 'lut' and len(c['r']) > 1:
+        for k in (len(c['r']) - 2, len(c['r']) // 2):
+            if k >= 1:
+                yield dict(c, **{x: c[x][:k] for x in ('r', 'g', 'b') if x in c})
+    if c.get('kind') == 'lut' and c.get('layout', 'C') != 'C':
+        yield dict(c, layout='C')
+    if c.get('kind') == 'lut' and c.get('holder'):
+        yield dict(c, holder=None)
+    if c.get('kind') == 'pm_native':
+        if len(c['vals']) > 1:
+            yield dict(c, vals=c['vals'][:1])
+        if c.get('layout', 'C') != 'C':
+            yield dict(c, layout='C')
+    if c.get('kind', '').startswith('ctor_') and c.get('opt'):
+        for key in ('layout', 'series', 'uids'):
+            if c['opt'].get(key) not in (None, 'C'):
+                yield dict(c, opt={k2: v for k2, v in c['opt'].items() if k2 != key} | ({'layout': 'C'} if key == 'layout' else {}))
 
 
 if __name__ == '__main__':
